@@ -154,6 +154,30 @@ def run_case(ctx, rig, keys, plans, picks, fail, eager_first):
         VmapWrapper(b.env).reset(jax.random.split(k_i, 2))
         JumanjiToDMEnvWrapper(b.env, key=k_i).reset()
         ctx.count("interference_rounds")
+        # a sibling environment built on the *same generator object* with another time limit (a training and an
+        # evaluation environment sharing their instance generator): constructing it must leave the caller's generator,
+        # and with it the behaviour of the environment under test, untouched
+        import inspect
+
+        gen = getattr(b.env, "generator", None)
+        gen = gen if gen is not None else getattr(b.env, "_generator", None)
+        params = inspect.signature(type(b.env).__init__).parameters
+        if gen is not None and "generator" in params and "time_limit" in params and getattr(b.env, "time_limit", None):
+            def attrs(g):
+                return {k: repr(v)[:200] for k, v in sorted(vars(g).items())}
+
+            before = attrs(gen)
+            try:
+                type(b.env)(generator=gen, time_limit=int(b.env.time_limit) + 3)
+                ctx.count("sibling_constructions")
+            except Exception:  # noqa: BLE001 - a constructor that needs more arguments: nothing to compare
+                ctx.count("sibling_construction_skipped")
+            after = attrs(gen)
+            ctx.evals()
+            if before != after:
+                changed = sorted(k for k in set(before) | set(after) if before.get(k) != after.get(k))
+                fail("args.constructor", "constructing an environment modified the generator object passed by the caller",
+                     f"attributes {changed}: {[(before.get(k), after.get(k)) for k in changed][:3]}")
 
     # 1. re-issue stored calls: same object (after all the other calls), fresh instance in reverse order
     chosen = sorted({p % len(calls) for p in picks})
